@@ -472,6 +472,36 @@ def _entry_paths(ctx, m):
              'self.metadata.extend(_R_metadata.items())', 'self.metadata.update(_R_metadata)'],
             'constructor metadata is stored through the validating container',
             'Grid(version="2.0", metadata={"x": [1]}) is accepted')
+    # every object the constructor stores as column metadata is one it built itself, bound to THIS grid's validator
+    slf = init.args.args[0].arg
+    stores = []
+    for n in walk_no_nested(init):
+        if isinstance(n, ast.Call) and norm(n.func) in ('%s.column.add_item' % slf, '%s.column.__setitem__' % slf) and len(n.args) >= 2:
+            stores.append((n, n.args[1]))
+        elif isinstance(n, ast.Assign) and len(n.targets) == 1 and isinstance(n.targets[0], ast.Subscript) \
+                and norm(n.targets[0].value) == '%s.column' % slf:
+            stores.append((n, n.value))
+    own_ctor = ('MetadataObject(validate_fn=%s._detect_or_validate)' % slf,)
+    for n, val in stores:
+        srcs = [val]
+        if isinstance(val, ast.Name):
+            srcs = [a.value for a in walk_no_nested(init) if isinstance(a, ast.Assign) and len(a.targets) == 1
+                    and norm(a.targets[0]) == val.id]
+            if any(isinstance(x, (ast.For, ast.comprehension)) and val.id in [y.id for y in ast.walk(x.target) if isinstance(y, ast.Name)]
+                   for x in ast.walk(init)):
+                srcs.append(None)       # also bound by a loop: an object of the caller
+        if srcs and all(x is not None and norm(x) in own_ctor for x in srcs):
+            ctx.ob('C10.D2', 'the column metadata stored by `%s` is a MetadataObject the constructor built with this grid\'s '
+                             'validator' % norm(n)[:60], True, '%s:%d' % (F, n.lineno))
+        else:
+            ctx.violation('C10.D2', '%s::Grid.__init__' % F, norm(n),
+                          'g = Grid(columns=["a"]); g.append({"a": 1}); s = g[0:1] (a slice of an unversioned grid has the explicit '
+                          'version 2.0); s.column["a"]["x"] = [1, 2] is accepted and the PARENT g turns 3.0, while s still says 2.0 '
+                          'and now carries a list; with an explicit 2.0 parent and Grid(columns=parent.column) the store is refused '
+                          'instead of upgrading the new grid',
+                          'the constructor stores a column metadata object it was given (`%s`): its validator stays bound to the grid '
+                          'it came from, so later stores are checked against another grid\'s version' % norm(val)[:40],
+                          file=F, line=n.lineno, engine='E7')
     ok_col = sc.need(['self.column = SortableDict(validate_fn=self._validate_column)'],
                      'the column map validates what is stored into it',
                      'g = Grid(version="2.0"); g.column["a"] = {"x": [1, 2]} is accepted: a 2.0 grid carries a list '
